@@ -1,5 +1,6 @@
 import EncodingRs.Thm.C08LoopLifeRepl
 import EncodingRs.Thm.C06Life
+import EncodingRs.Lemmas.OneShotCap
 /-!
 # C08 — the public with-replacement call `Decoder.replCall` returns
 
@@ -168,6 +169,184 @@ theorem replCall_terminates_reach (v : Gen.Variant) (bom : BomHandling) (d : Dec
     (hb : ∀ x ∈ src, x < 256) (bs : List (Budget × Budget)) (hfuel : src.length + 8 ≤ fuel) :
     Decoder.replCall k last fuel d src bs ≠ none :=
   replCall_terminates' v k last fuel d pos (loopInv_reachable v bom d pos hr) src hb bs hfuel
+
+/-! ## termination by a measure (every decoder value, every byte list) -/
+
+/-- the rank of whichever variant decoder is current -/
+def curRank {F : Fam} : Cur F → Nat
+  | .nominal s => F.rank s
+  | .utf8 s => utf8Fam.rank s
+  | .utf16be s => (utf16Fam true).rank s
+  | .utf16le s => (utf16Fam false).rank s
+
+/-- the termination measure of the with-replacement loop: ten per byte still to be handed to a variant
+decoder (remaining source and withheld potential-BOM bytes) plus the rank (≤ 9) of the current one -/
+def lifeMeasure {F : Fam} (d : Decoder F) (remaining : Nat) : Nat :=
+  10 * (remaining + withheld d.life) + curRank d.cur
+
+theorem curRank_le {F : Fam} (hR : ∀ s, F.rank s ≤ 9) (c : Cur F) : curRank c ≤ 9 := by
+  cases c with
+  | nominal s => exact hR s
+  | utf8 s => exact Lemmas.OneShot.rank_le .utf8 s
+  | utf16be s => exact Lemmas.OneShot.rank_le .utf16Be s
+  | utf16le s => exact Lemmas.OneShot.rank_le .utf16Le s
+
+/-- C08 `malformed_progress` for whichever decoder is current -/
+theorem cur_call_malformed_progress {F : Fam} (H : FamOk F) (k : Sink) (c : Cur F) (src : List Nat) (last : Bool)
+    (b : Budget) (l a : Nat) (h : (c.call k src last b).res = .malformed l a) :
+    1 ≤ (c.call k src last b).read ∨ curRank (c.call k src last b).cur < curRank c := by
+  cases c with
+  | nominal s => exact Lemmas.OneShotCap.call_malformed_progress F k last H.alt_pos src s b l a h
+  | utf8 s => exact Lemmas.OneShotCap.call_malformed_progress utf8Fam k last (famOk_variant .utf8).alt_pos src s b l a h
+  | utf16be s =>
+    exact Lemmas.OneShotCap.call_malformed_progress (utf16Fam true) k last (famOk_variant .utf16Be).alt_pos src s b l a h
+  | utf16le s =>
+    exact Lemmas.OneShotCap.call_malformed_progress (utf16Fam false) k last (famOk_variant .utf16Le).alt_pos src s b l a h
+
+/-- what is claimed of a `Decoder` call on a source of `n` bytes: a `Malformed` return leaves a
+measure below `B` -/
+def MalBelow {F : Fam} (n B : Nat) : DRes F → Prop
+  | .panic => True
+  | .ok res read _ d' _ => ∀ l a, res = .malformed l a → lifeMeasure d' (n - read) < B
+
+theorem MalBelow.mono {F : Fam} {n B B' : Nat} {r : DRes F} (h : MalBelow n B r) (hB : B ≤ B') : MalBelow n B' r := by
+  cases r with
+  | panic => trivial
+  | ok res read out d' inner => intro l a hr; exact Nat.lt_of_lt_of_le (h l a hr) hB
+
+theorem checkingEnd_malBelow {F : Fam} (H : FamOk F) (hR : ∀ s, F.rank s ≤ 9) (k : Sink) (c : Cur F)
+    (src : List Nat) (last : Bool) (b : Budget) (off : Nat) (pre : List (List Nat × Res × Nat)) (preOut : List Nat) :
+    MalBelow src.length (10 * (src.length - off) + curRank c) (checkingEnd k c src last b off pre preOut) := by
+  have hle := cur_call_read_le k c (src.drop off) last b H.alt_le
+  have hprog := cur_call_malformed_progress H k c (src.drop off) last b
+  have hrk := curRank_le hR (c.call k (src.drop off) last b).cur
+  rw [List.length_drop] at hle
+  unfold checkingEnd MalBelow
+  generalize c.call k (src.drop off) last b = r at hle hprog hrk
+  simp only
+  intro l a h
+  have hp := hprog l a h
+  simp only [h, lifeMeasure]
+  have hw : withheld (if last = true ∧ Res.malformed l a = Res.inputEmpty then Life.finished else Life.converting) = 0 := by
+    rw [if_neg (fun hh => by cases hh.2)]; rfl
+  rw [hw]
+  rcases hp with hp | hp <;> omega
+
+theorem afterOne_malBelow {F : Fam} (H : FamOk F) (hR : ∀ s, F.rank s ≤ 9) (k : Sink) (c : Cur F) (src : List Nat)
+    (last : Bool) (fb : Nat) (b1 b2 : Budget) :
+    MalBelow src.length (10 * (src.length + 1)) (afterOne k c src last fb b1 b2) := by
+  have hrk := curRank_le hR (c.call k [fb] false b1).cur
+  unfold afterOne
+  generalize c.call k [fb] false b1 = r1 at hrk
+  simp only
+  split
+  · exact (checkingEnd_malBelow H hR k r1.cur src last b2 0 _ _).mono (by omega)
+  · intro l a _
+    simp only [lifeMeasure, withheld]
+    omega
+  · split
+    · intro l a h; cases h
+    · trivial
+
+theorem afterTwo_malBelow {F : Fam} (H : FamOk F) (hR : ∀ s, F.rank s ≤ 9) (k : Sink) (c : Cur F) (src : List Nat)
+    (last : Bool) (b1 b2 : Budget) :
+    MalBelow src.length (10 * (src.length + 2)) (afterTwo k c src last b1 b2) := by
+  have hrk := curRank_le hR (c.call k [0xEF, 0xBB] false b1).cur
+  unfold afterTwo
+  generalize c.call k [0xEF, 0xBB] false b1 = r1 at hrk
+  simp only
+  split
+  · exact (checkingEnd_malBelow H hR k r1.cur src last b2 0 _ _).mono (by omega)
+  · split
+    · intro l a _
+      simp only [lifeMeasure, withheld]
+      omega
+    · intro l a _
+      simp only [lifeMeasure, withheld]
+      omega
+  · split
+    · intro l a h; cases h
+    · trivial
+
+theorem replayOne_withheld {l : Life} {fb : Nat} (h : replayOne l = some fb) : withheld l = 1 := by
+  cases l <;> simp [replayOne] at h <;> rfl
+
+/-- **a raw call that returns `Malformed` lowers the measure** — for every decoder value, source and
+stop policy: it consumed input, used up a withheld byte, or lowered the rank of the variant decoder -/
+theorem rawCall_malformed_measure {F : Fam} (H : FamOk F) (hR : ∀ s, F.rank s ≤ 9) (k : Sink) (d : Decoder F)
+    (src : List Nat) (last : Bool) (b1 b2 : Budget) (l a read : Nat) (out : List Nat) (d' : Decoder F)
+    (inner : List (List Nat × Res × Nat)) (h : d.rawCall k src last b1 b2 = .ok (.malformed l a) read out d' inner) :
+    lifeMeasure d' (src.drop read).length < lifeMeasure d src.length := by
+  have key : MalBelow src.length (lifeMeasure d src.length) (d.rawCall k src last b1 b2) := by
+    have hleaf := rawCall_leaf k d src last b1 b2
+    generalize d.rawCall k src last b1 b2 = r at hleaf
+    cases hleaf with
+    | finished _ => trivial
+    | idle _ _ => intro l a h; cases h
+    | wait n life' _ _ _ => intro l a h; cases h
+    | direct _ =>
+      exact (checkingEnd_malBelow H hR k d.cur src last b2 0 _ _).mono (by simp only [lifeMeasure]; omega)
+    | bom8 off _ =>
+      refine (checkingEnd_malBelow H hR k (.utf8 utf8Fam.init) src last b2 off _ _).mono ?_
+      have : curRank (F := F) (.utf8 utf8Fam.init) = 0 := (famOk_variant .utf8).rank_init
+      simp only [lifeMeasure]; omega
+    | bom16 be off _ =>
+      cases be with
+      | true =>
+        refine (checkingEnd_malBelow H hR k (.utf16be (utf16Fam true).init) src last b2 off _ _).mono ?_
+        have : curRank (F := F) (.utf16be (utf16Fam true).init) = 0 := (famOk_variant .utf16Be).rank_init
+        simp only [lifeMeasure]; omega
+      | false =>
+        refine (checkingEnd_malBelow H hR k (.utf16le (utf16Fam false).init) src last b2 off _ _).mono ?_
+        have : curRank (F := F) (.utf16le (utf16Fam false).init) = 0 := (famOk_variant .utf16Le).rank_init
+        simp only [lifeMeasure]; omega
+    | one fb hfb =>
+      refine (afterOne_malBelow H hR k d.cur src last fb b1 b2).mono ?_
+      simp only [lifeMeasure, replayOne_withheld hfb]; omega
+    | two hl =>
+      refine (afterTwo_malBelow H hR k d.cur src last b1 b2).mono ?_
+      simp only [lifeMeasure, hl, withheld]; omega
+  rw [h] at key
+  rw [List.length_drop]
+  exact key l a rfl
+
+/-- **the with-replacement loop of the public `Decoder` terminates for EVERY decoder value and EVERY
+stop policy** (the lift of `Lemmas.OneShotCap.replLoop_terminates_any` through `Decoder.rawCall`): with
+more fuel than `10 · (src.len() + withheld) + rank` it does not run out of fuel -/
+theorem replCall_terminates_any {F : Fam} (H : FamOk F) (hR : ∀ s, F.rank s ≤ 9) (k : Sink) (last : Bool) :
+    ∀ (fuel : Nat) (d : Decoder F) (src : List Nat) (bs : List (Budget × Budget)),
+      lifeMeasure d src.length < fuel → Decoder.replCall k last fuel d src bs ≠ none := by
+  intro fuel
+  induction fuel with
+  | zero => intro d src bs h; omega
+  | succ fuel ih =>
+    intro d src bs hf
+    rw [Decoder.replCall]
+    cases hcall : d.rawCall k src last (bs.headD (.unlimited, .unlimited)).1 (bs.headD (.unlimited, .unlimited)).2 with
+    | panic => simp
+    | ok res read out d' inner =>
+      simp only
+      cases res with
+      | inputEmpty => simp
+      | outputFull => simp
+      | malformed l a =>
+        simp only
+        have hlt := rawCall_malformed_measure H hR k d src last _ _ l a read out d' inner hcall
+        have IH := ih d' (src.drop read) bs.tail (by omega)
+        cases hrec : Decoder.replCall k last fuel d' (src.drop read) bs.tail with
+        | none => exact absurd hrec IH
+        | some o => cases o <;> simp
+
+/-- for the 40 encodings: any decoder value whatsoever (no invariant, no reachability, any naturals as
+"bytes"), `fuel ≥ 10 · src.len() + 30` -/
+theorem variant_replCall_terminates (v : Gen.Variant) (k : Sink) (last : Bool) (fuel : Nat)
+    (d : Decoder (famOfVariant v)) (src : List Nat) (bs : List (Budget × Budget))
+    (hfuel : 10 * src.length + 30 ≤ fuel) : Decoder.replCall k last fuel d src bs ≠ none := by
+  refine replCall_terminates_any (famOk_variant v) (Lemmas.OneShot.rank_le v) k last fuel d src bs ?_
+  have h1 := withheld_le_two d.life
+  have h2 := curRank_le (Lemmas.OneShot.rank_le v) d.cur
+  simp only [lifeMeasure]
+  omega
 
 /-! ## the call returns -/
 
